@@ -13,9 +13,9 @@
    the structure alone.  Proofs: proofs/SpecMechProofs.v, proofs/SpecTextProofs.v,
    proofs/SpecDocProofs.v. *)
 Require Import GM.model.Base GM.model.Util GM.model.UtilI GM.model.Ids GM.model.SpecMech GM.model.SpecDoc
-               GM.model.HtmlWriter GM.model.Refs GM.model.Blocks.
+               GM.model.HtmlWriter GM.model.Refs GM.model.Blocks GM.model.Reader GM.model.ListItem GM.model.LeafBlocks.
 Require Import GM.gen.Tables GM.gen.Entities.
-Require Import GM.proofs.SpecMechProofs GM.proofs.SpecTextProofs GM.proofs.SpecDocProofs GM.proofs.SpecTabProofs.
+Require Import GM.proofs.SpecMechProofs GM.proofs.SpecTextProofs GM.proofs.SpecDocProofs GM.proofs.SpecTabProofs GM.proofs.ListItemProofs GM.proofs.LeafBlocksProofs.
 Open Scope N_scope.
 
 (* the hard-break test (parser.go, after the fix) looks at the parity of the final run of
@@ -101,6 +101,107 @@ Print Assumptions C02_md_of_final_newline.
 Theorem C02_tab_spelling_same_columns : forall l, expand (line_md true l) 0 = expand (line_md false l) 0.
 Proof. exact line_md_same_columns. Qed.
 Print Assumptions C02_tab_spelling_same_columns.
+
+(* ---- block-level mechanisms (models of parser/list.go, list_item.go, thematic_break.go,
+   atx_heading.go, fcode_block.go; the concrete white-space table is the dumped one) ---- *)
+
+(* a marker line: up to three blanks, a bullet or 1-9 digits with '.' or ')', a gap of blanks
+   and tabs, content: parseListItem finds the marker and where the content starts *)
+Theorem C02_list_item_marker_partial : forall (ind : nat) (mk gap rest : bytes) (c : N),
+  (ind <= 3)%nat -> marker_ok mk = true -> all_ws gap -> gap <> [] -> c <> 32 -> c <> 9 -> c <> 10 ->
+  let line := repeat 32 ind ++ mk ++ gap ++ c :: rest in
+  let i := (Z.of_nat ind + zlen mk)%Z in
+  parse_list_item line =
+    ({| m1 := Z.of_nat ind; m2 := Z.of_nat ind; m3 := i; m4 := i;
+        m5 := if N.eqb (nth_byte line (zlen line - 1)) 10 then (zlen line - 1)%Z else zlen line |},
+     if Nat.eqb (length mk) 1 then 1 else 2).
+Proof. exact (parse_list_item_marker space_table eq_refl eq_refl). Qed.
+Print Assumptions C02_list_item_marker_partial.
+
+(* the content offset of the item is the width of the gap in columns, measured from the column
+   where the gap starts (after the fix: commit), or one when the gap is wider than four *)
+Theorem C02_list_item_offset_by_columns_partial : forall (pre gap rest : bytes) (c : N) (m : lmatch) (off : Z),
+  all_ws gap -> gap <> [] -> c <> 32 -> c <> 9 -> IsSpace c = false -> m4 m = zlen pre -> (0 <= off)%Z ->
+  calc_list_offset space_table (pre ++ gap ++ c :: rest) m off =
+    (let g := gap_width gap (off + zlen pre) in if (4 <? g)%Z then 1%Z else g).
+Proof. exact (calc_list_offset_columns space_table eq_refl eq_refl). Qed.
+Print Assumptions C02_list_item_offset_by_columns_partial.
+
+(* hence any two spellings of the gap that span the same columns give the same item *)
+Theorem C02_list_item_offset_spelling_independent_partial : forall (pre gap1 gap2 rest : bytes) (c : N) (m : lmatch) (off : Z),
+  all_ws gap1 -> gap1 <> [] -> all_ws gap2 -> gap2 <> [] -> c <> 32 -> c <> 9 -> IsSpace c = false ->
+  m4 m = zlen pre -> (0 <= off)%Z -> gap_width gap1 (off + zlen pre) = gap_width gap2 (off + zlen pre) ->
+  calc_list_offset space_table (pre ++ gap1 ++ c :: rest) m off = calc_list_offset space_table (pre ++ gap2 ++ c :: rest) m off.
+Proof. exact (list_item_offset_spelling_independent space_table eq_refl eq_refl). Qed.
+Print Assumptions C02_list_item_offset_spelling_independent_partial.
+
+(* a gap of at most four columns is consumed entirely and leaves no padding; of a wider gap one
+   column belongs to the marker and what is left of a tab becomes padding *)
+Theorem C02_indent_position_consumes_gap_partial : forall (gap rest : bytes) (c : N) (cur : Z),
+  all_ws gap -> gap <> [] -> c <> 32 -> c <> 9 -> (0 <= cur)%Z -> (gap_width gap cur <= 4)%Z ->
+  indent_position (gap ++ c :: rest) cur (gap_width gap cur) = (zlen gap, 0%Z).
+Proof. exact (indent_position_consumes_gap space_table eq_refl eq_refl). Qed.
+Print Assumptions C02_indent_position_consumes_gap_partial.
+
+Theorem C02_indent_position_code_gap_partial : forall (g : N) (gap rest : bytes) (cur : Z),
+  (g = 32 \/ g = 9) -> (0 <= cur)%Z ->
+  indent_position (g :: gap ++ rest) cur 1 = (1%Z, if N.eqb g 9 then (tab_width cur - 1)%Z else 0%Z).
+Proof. exact (indent_position_code_gap space_table eq_refl eq_refl). Qed.
+Print Assumptions C02_indent_position_code_gap_partial.
+
+(* thematic breaks: three or more of the same mark with any white space between and after,
+   indented at most three blanks, at any line offset; any other visible byte prevents it *)
+Theorem C02_thematic_break_spellings_partial : forall (ind : nat) (mark : N) (body : bytes) (off : Z),
+  (ind <= 3)%nat -> (mark = 42 \/ mark = 45 \/ mark = 95) ->
+  Forall (fun c => c = mark \/ IsSpace c = true) body -> (2 <= count_occ N.eq_dec body mark)%nat -> IsSpace mark = false ->
+  is_thematic_break space_table (repeat 32 ind ++ mark :: body) off = true.
+Proof. exact (thematic_break_spellings space_table eq_refl eq_refl eq_refl). Qed.
+Print Assumptions C02_thematic_break_spellings_partial.
+
+Theorem C02_thematic_break_rejects_other_partial : forall (ind : nat) (mark x : N) (body1 body2 : bytes) (off : Z),
+  (ind <= 3)%nat -> x <> mark -> IsSpace x = false -> IsSpace mark = false ->
+  Forall (fun c => c = mark \/ IsSpace c = true) body1 ->
+  is_thematic_break space_table (repeat 32 ind ++ mark :: body1 ++ x :: body2) off = false.
+Proof. exact (thematic_break_rejects_other space_table eq_refl eq_refl eq_refl). Qed.
+Print Assumptions C02_thematic_break_rejects_other_partial.
+
+(* ATX headings: the level is the number of hashes, the line is the text, whatever closing run *)
+Theorem C02_atx_open_spellings_partial : forall (ind lv : nat) (text cl trail : bytes) (first last : N) (mid : bytes),
+  (ind <= 3)%nat -> (1 <= lv <= 6)%nat ->
+  text = first :: mid ++ [last] \/ (text = [first] /\ last = first) ->
+  IsSpace first = false -> IsSpace last = false -> first <> 35 -> last <> 35 ->
+  atx_closing cl -> Forall (fun c => c = 32) trail ->
+  atx_open space_table (repeat 32 ind ++ repeat 35 lv ++ [32] ++ text ++ cl ++ trail ++ [10]) (Z.of_nat ind) =
+    Ok (Some (Z.of_nat lv, Some ((Z.of_nat ind + Z.of_nat lv + 1)%Z,
+                                 (Z.of_nat ind + Z.of_nat lv + 1 + zlen text + match cl with [] => 0 | _ => 1 end)%Z))).
+Proof. exact (fun ind lv text cl trail first last mid => atx_open_spellings space_table eq_refl eq_refl eq_refl ind lv text cl trail first last mid eq_refl). Qed.
+Print Assumptions C02_atx_open_spellings_partial.
+
+(* fences: character, length, indentation and info word are read off the opening line; a line
+   of at least as many fence characters closes; any other line is content, dedented by at most
+   the opening indentation *)
+Theorem C02_fence_open_spellings_partial : forall (ind fl : nat) (ch : N) (info : bytes),
+  (ind <= 3)%nat -> (3 <= fl)%nat -> (ch = 96 \/ ch = 126) ->
+  Forall (fun c => IsSpace c = false /\ c <> 96 /\ c <> 126) info ->
+  fence_open space_table (repeat 32 ind ++ repeat ch fl ++ info ++ [10]) (Z.of_nat ind) =
+    Ok (Some (ch, Z.of_nat ind, Z.of_nat fl,
+              match info with [] => None | _ => Some ((Z.of_nat ind + Z.of_nat fl)%Z, (Z.of_nat ind + Z.of_nat fl + zlen info)%Z) end)).
+Proof. exact (fence_open_spellings space_table eq_refl eq_refl eq_refl). Qed.
+Print Assumptions C02_fence_open_spellings_partial.
+
+Theorem C02_fence_close_recognised_partial : forall (j k : nat) (ch : N) (trail : bytes) (off indent flen : Z),
+  (1 <= k)%nat -> (j <= 3)%nat -> (flen <= Z.of_nat k)%Z -> (ch = 96 \/ ch = 126) ->
+  Forall (fun c => c = 32 \/ c = 9) trail ->
+  fence_continue space_table (repeat 32 j ++ repeat ch k ++ trail ++ [10]) off 0 ch indent flen =
+    inl (Z.of_nat j + Z.of_nat k + zlen trail)%Z.
+Proof. exact (fence_close_recognised space_table eq_refl eq_refl eq_refl). Qed.
+Print Assumptions C02_fence_close_recognised_partial.
+
+Theorem C02_fence_content_dedent_partial : forall (j : nat) (c ch : N) (rest : bytes) (off indent flen : Z),
+  c <> 32 -> c <> 9 -> c <> 10 -> c <> ch -> (0 <= indent)%Z -> (1 <= flen)%Z ->
+  fence_continue space_table (repeat 32 j ++ c :: rest) off 0 ch indent flen = inr (Z.min (Z.of_nat j) indent, 0%Z).
+Proof. exact (fence_content_dedent space_table eq_refl eq_refl eq_refl). Qed.
+Print Assumptions C02_fence_content_dedent_partial.
 
 (* non-vacuity: the design-time deviation (three backslashes before the line end) is a hard break *)
 Example C02_demo : line_break_kind [97; 92; 92; 92; 10] = 1 /\ line_break_kind [97; 92; 92; 10] = 3.
